@@ -1,6 +1,7 @@
 package main
 
 import (
+	"slices"
 	"encoding/json"
 	"flag"
 	"fmt"
@@ -283,16 +284,40 @@ func cmdC13(args []string) {
 		// the same string next to other (valid) entries of the list, before and after them: the verdict on a pattern must not
 		// depend on its neighbours or its position
 		ctxs := []map[string]any{}
-		for ci, list := range [][]string{{"*", s}, {s, "*"}, {"https://ctx.example", s}, {s, "https://ctx.example"}, {"*", "https://ctx.example", s}} {
-			cx := map[string]any{"k": ci, "accepted": false, "named": false, "panicked": false}
+		lists := [][]string{{"*", s}, {s, "*"}, {"https://ctx.example", s}, {s, "https://ctx.example"}, {"*", "https://ctx.example", s}}
+		// ... and next to a pattern that ALMOST covers it: `*.` + the parent domain of its host under the same scheme but with
+		// another port (and with no port), listed before and after it - the pattern must still allow itself
+		if i := strings.Index(s, "://"); i > 0 && rec.C.Host.Kind == "domain" && rec.C.Wild == "none" && rec.C.Sep == "ok" && rec.C.Tail == "none" {
+			hostport := s[i+3:]
+			host := hostport
+			if j := strings.LastIndexByte(hostport, ':'); j >= 0 {
+				host = hostport[:j]
+			}
+			if k := strings.IndexByte(host, '.'); k > 0 && k+1 < len(host) && len(host) < 200 {
+				parent := s[:i+3] + "*." + host[k+1:]
+				lists = append(lists, []string{parent + ":7", s}, []string{s, parent + ":7"}, []string{parent, s, parent + ":9"})
+			}
+		}
+		for ci, list := range lists {
+			cx := map[string]any{"k": ci, "accepted": false, "named": false, "panicked": false, "self": false}
 			func() {
 				defer func() {
 					if p := recover(); p != nil {
 						cx["panicked"] = true
 					}
 				}()
-				_, err := cors.NewMiddleware(cors.Config{Origins: list, ExtraConfig: cors.ExtraConfig{DangerouslyTolerateSubdomainsOfPublicSuffixes: true}})
+				mc, err := cors.NewMiddleware(cors.Config{Origins: list, ExtraConfig: cors.ExtraConfig{DangerouslyTolerateSubdomainsOfPublicSuffixes: true}})
 				cx["accepted"] = err == nil
+				if err == nil {
+					act, pf := originAllowedByMiddleware(mc.Wrap(okHandler), s)
+					if slices.Contains(list, "*") { // allow-all answers `*`, not an echo
+						wa := newRec()
+						mc.Wrap(okHandler).ServeHTTP(wa, newReq("GET", http.Header{"Origin": {s}}))
+						v := wa.final()["Access-Control-Allow-Origin"]
+						act, pf = len(v) == 1 && v[0] == "*", true
+					}
+					cx["self"] = act && pf
+				}
 				if err != nil {
 					for e := range cfgerrors.All(err) {
 						if x, ok := e.(*cfgerrors.UnacceptableOriginPatternError); ok && x != nil && x.Value == s {
